@@ -31,6 +31,7 @@ def check(run):
     cov = ic.absorb(run, res, nontrivial)
     run.notes['replay_coverage'] = cov
     leg_error_renderer_names(run)
+    leg_prefix_bindings(run)
     shown = 0
     for r in recs + recs2:
         if r['conflict'] and shown < 3:
@@ -88,11 +89,71 @@ def leg_error_renderer_names(run):
                     run.nontrivial.add('errname:%s:%s:%s' % (key, nm, how))
 
 
+def leg_prefix_bindings(run):
+    """Inject.tla Conflict (Offers(R, nm) > 1 => NameError) for an EMBEDDED application: the URL bindings of a bound route are
+    those of the embedding prefix plus the route's own, so a binding in the prefix conflicts with a resource, a provide or a
+    binding of the embedded application just as a binding of the route itself would - whatever else the parent defines."""
+    import common
+    common.fresh_repo_import()
+    from clastic import Application, Route, Response
+    from clastic.middleware import Middleware
+
+    class Prov(Middleware):
+        provides = ('u1',)
+
+        def request(self, next):
+            return next(u1='provided')
+
+    def inner_of(kind):
+        if kind == 'app-resource':
+            return Application([('/x', lambda: Response('x'))], resources={'u1': 1})
+        if kind == 'route-resource':
+            return Application([Route('/x', lambda: Response('x'), resources={'u1': 1})])
+        if kind == 'app-middleware':
+            return Application([('/x', lambda: Response('x'))], middlewares=[Prov()])
+        if kind == 'route-middleware':
+            return Application([Route('/x', lambda: Response('x'), middlewares=[Prov()])])
+        if kind == 'route-binding':
+            return Application([('/x/<u1>', lambda u1: Response(u1))])
+        return Application([('/x', lambda: Response('x'))])
+    parents = {'bare': {}, 'with-resource': {'resources': {'other': 1}}, 'with-middleware': {'middlewares': [type('Plain', (Middleware,), {})()]}}
+    for kind in ('app-resource', 'route-resource', 'app-middleware', 'route-middleware', 'route-binding', 'none'):
+        for prefix, clash in (('/<u1>', kind != 'none'), ('/<u2>', False), ('/lit', False)):
+            for pname, pkw in sorted(parents.items()):
+                for twice in (False, True):
+                    run.evaluations += 1
+                    try:
+                        inner = inner_of(kind)
+                        if twice:
+                            Application([('/first', inner)])           # the application was already embedded once, elsewhere
+                        Application([(prefix, inner)], **pkw)
+                        outcome = 'ok'
+                    except NameError:
+                        outcome = 'NameError'
+                    except Exception as ex:  # noqa
+                        outcome = type(ex).__name__
+                    want = 'NameError' if clash else 'ok'
+                    if clash and kind == 'route-binding':
+                        want = 'InvalidPattern'      # two bindings of one name in ONE pattern: the pattern itself is invalid (C05)
+                    if outcome != want:
+                        run.violation('prefix-binding-conflict:%s:%s->%s' % (kind, want, outcome),
+                                      'embedding under %r an application whose %s offers u1 (parent %s%s): %s, the spec says %s'
+                                      % (prefix, kind, pname, ', embedded before' if twice else '', outcome, want),
+                                      {'leg': 'L2-prefix', 'kind': kind, 'prefix': prefix, 'parent': pname, 'twice': twice,
+                                       'outcome': outcome})
+                    else:
+                        run.traces += 1
+                        run.nontrivial.add('prefix:%s:%s:%s:%s' % (kind, prefix, pname, twice))
+
+
 def replay(run, path):
     import inject_worker
     with open(path) as f:
         rp = json.load(f)
     c = rp['case']
+    if c.get('leg') == 'L2-prefix':
+        print('re-run `bin/check C04 quick` (prefix bindings leg): %r' % ({k: c[k] for k in ('kind', 'prefix', 'parent', 'twice', 'outcome')},))
+        return 1
     if c.get('leg') == 'L2-err':
         print('re-run `bin/check C04 quick` (error renderer names leg): %r' % ({k: c[k] for k in ('name', 'how', 'outcome')},))
         return 1
